@@ -130,4 +130,8 @@ CHECKS.update({
                 text='Scale factors 0.001-0.005 (quick) / -0.05 (thorough) x 3 seeds: two runs equal, row counts equal TpchRowCounts, ten foreign keys resolve, Parquet write/read equals memory, threads equal the reference; source scanned for global state.',
                 note='The schedule quantifier is vacuous by construction (no shared state); one deliberate dangling key range is a listed known finding.'),
 })
+CHECKS['C29'] = dict(category='exploration', engine=E1, design='3/C29',
+    technique='exhaustive enumeration of token strings / byte strings up to a length and of parametric depth families for every n, executed in a supervised engine subprocess',
+    text='All token strings of length <= 4 (quick, 345k) / 5 (thorough, 8M) over a 24-token SQL alphabet, all strings of <= 3/4 hostile bytes, ~200 mistyped/unsupported/boundary statements, 18 depth families for every n in 1..400 (quick) / 3000 (thorough): each must return Ok or Err within 30 s without a panic and without killing the process.',
+    note='Invalid UTF-8 cannot reach the &str API; join chains are capped at 120/300 relations (planning cost there is polynomial work, not a hang); one known finding (unbounded string function results).')
 PENDING_REASON = 'check not built yet in this round (planned in DESIGN.md section 3); not claimed until it exists'
